@@ -52,7 +52,7 @@ func (n num) i64() int64 {
 		u = u<<10 | uint64(n.D[i])
 	}
 	if n.Neg {
-		return -int64(u - 1) - 1
+		return -int64(u-1) - 1
 	}
 	return int64(u)
 }
@@ -108,6 +108,7 @@ func (b *block) bm() bmp.Bit1024 {
 
 type snap struct {
 	ok    bool
+	kind  string
 	start uint32
 	words [16]uint64
 	n     int
@@ -126,7 +127,7 @@ func (b *block) snap() snap {
 		return snap{}
 	}
 	w, n := snapBM(b.bm())
-	return snap{ok: true, start: b.start(), words: w, n: n}
+	return snap{ok: true, kind: b.kind, start: b.start(), words: w, n: n}
 }
 
 type runner struct {
@@ -182,9 +183,9 @@ func (r *runner) emit(rec tr.E, f func() (reply interface{}, discard bool)) {
 		now := b.snap()
 		if now != before[i] {
 			if now.ok {
-				obsBlk = append(obsBlk, tr.E{"h": i + 1, "ok": true, "start": startDigits(now.start), "ms": membersOf(b.bm())})
+				obsBlk = append(obsBlk, tr.E{"h": i + 1, "ok": true, "kind": now.kind, "start": startDigits(now.start), "ms": membersOf(b.bm())})
 			} else {
-				obsBlk = append(obsBlk, tr.E{"h": i + 1, "ok": false, "start": []int{}, "ms": []int{}})
+				obsBlk = append(obsBlk, tr.E{"h": i + 1, "ok": false, "kind": "", "start": []int{}, "ms": []int{}})
 			}
 		}
 	}
@@ -677,11 +678,33 @@ func (r *runner) blockScenario(kind string, v int64, src string) {
 			}
 		}
 	}
-	// the complement: a dense block
-	if r.rng.Intn(3) == 0 {
+	// a third block: the complement of the first (dense) or another neighbour; lists of three
+	if r.rng.Intn(2) == 0 {
 		r.brev(1, 3)
-		r.bgetn(3, []string{"f", "r"}[r.rng.Intn(2)], []int{1, 3, 1020, 2000}[r.rng.Intn(4)])
-		r.lgetn(kind, []int{3, 1}, []string{"f", "r"}[r.rng.Intn(2)], []int{2, 1023, 1024, 1030}[r.rng.Intn(4)])
+	} else if x, ok := clip(v + 1024*int64(r.rng.Intn(5)-2)); ok {
+		r.newBlock(3, kind, x)
+		if r.blk[2].ok() {
+			if y, ok := clip(x - x%1024 + int64(r.rng.Intn(1024))); ok {
+				r.bset(3, y)
+			}
+		}
+	}
+	if r.blk[2].ok() {
+		l3 := len(membersOf(r.blk[2].bm()))
+		r.bgetn(3, []string{"f", "r"}[r.rng.Intn(2)], []int{1, 3, l3 - 1, l3, 2000}[r.rng.Intn(5)])
+		lists := [][]int{{3, 1}, {1, 3}}
+		if r.blk[1].ok() {
+			lists = append(lists, []int{1, 2, 3}, []int{3, 2, 1}, []int{2, 3, 1}, []int{2, 1, 2, 3})
+		}
+		l2 := 0
+		if r.blk[1].ok() {
+			l2 = len(membersOf(r.blk[1].bm()))
+		}
+		for _, hs := range lists {
+			dir := []string{"f", "r"}[r.rng.Intn(2)]
+			n := []int{2, l, l + 1, l + l2, l + l2 + 1, l + l2 + l3 - 1, l + l2 + l3, l + l2 + l3 + 7, 1023, 1024, 3000}[r.rng.Intn(11)]
+			r.lgetn(kind, hs, dir, n)
+		}
 	}
 }
 
